@@ -8,7 +8,7 @@ if [ -n "$(git -C /repo status --porcelain)" ]; then echo "/repo has pending cha
 for n in $names; do
   d=seeded/$n
   prop=$(python3 -c "import json;print(json.load(open('$d/meta.json'))['property'])")
-  git -C /repo apply $d/patch.diff || { echo "$n: patch does not apply"; continue; }
+  git -C /repo apply /verif/$d/patch.diff || { echo "$n: patch does not apply"; continue; }
   bin/check $prop --tier quick > out/seedall_$n.txt 2>&1; rc=$?
   git -C /repo checkout -- .
   echo "$n property=$prop check_rc=$rc $(grep -c '^VIOLATION' out/seedall_$n.txt) violation lines"
